@@ -231,3 +231,18 @@ PROPS["C20"] = {
     "level_text": "Bounded symbolic model checking of randz: IDs, random draws, clock readings, random source words and rule parameters are symbolic, so every ID value, every byte offered to ParseBase32, every randBit setting and every elapsed time is covered by solver reasoning on each path.",
     "level_note": "Trusted: go/ssa, gosym, z3 (with one-shot fallback for the non-linear CountGenerator queries); clock and randomness stubs as listed in assumptions.",
 }
+
+# ------------------------------------------------------------------------------------------- C13
+c13 = "vh/c13."
+PROPS["C13"] = {
+    "patterns": ["./c13"],
+    "level": "model_checking",
+    "quick": [J(c13 + "DListOps", init=2, ops=3, covers=["list copied onto itself"]), J(c13 + "SListOps", init=3, ops=3)],
+    "thorough": [J(c13 + "DListOps", init=2, ops=4, covers=["list copied onto itself"], cfg={"MaxPaths": 60000000}), J(c13 + "SListOps", init=3, ops=4, cfg={"MaxPaths": 60000000})],
+    "bounds": {"quick": "DList (zero value and NewDoubly): 0..2 initial elements, then 3 arbitrary operations out of PushFront/PushBack/InsertBefore/InsertAfter/Remove/MoveToFront/MoveToBack/MoveBefore/MoveAfter/PushBackDList/PushFrontDList (self and foreign)/node-based insertions, with every choice of live, removed and foreign handles, compared with container/list (executed from its own SSA) after every operation in both directions; SList: 0..3 initial elements, 3 operations with symbolic 64-bit indices (all out-of-range values)",
+               "thorough": "4 operations"},
+    "outside": ["longer operation sequences", "inserting a *Node that is still linked in a list (not in the property)"],
+    "assumptions": [],
+    "level_text": "Bounded model checking by symbolic execution: operation sequences and handle choices are enumerated by forking, values and indices are symbolic; container/list is the executable oracle for DList, a slice model for SList. The solver's contribution here is the index arithmetic and feasibility; most of the state space is pointer shape, explored exhaustively within the bound.",
+    "level_note": "Trusted: go/ssa, gosym (witness-validated), z3. Little scalar data: this check is closer to exhaustive bounded exploration of the real code than to solver reasoning, and says so.",
+}
